@@ -113,6 +113,9 @@ def k_seq(run, case):
     from evo.core.units import Unit
     rng = run.rng(case)
     n = int(rng.integers(2, {"quick": 60, "thorough": 500}[run.tier]))
+    if rng.random() < .35:
+        n = int(rng.integers(2, 7))  # very short trajectories (pose counts equal to array widths: 3, 4)
+    n = int(case.get("n") or n)
     arr = gen.traj_arrays(rng, n, pos_cls=["walk", "utm", "circle", "tiny"][rng.integers(4)],
                           rot_cls=["smooth", "uniform", "yaw_grid"][rng.integers(3)],
                           stamp_cls=["epoch", "small", "irregular"][rng.integers(3)])
@@ -121,7 +124,7 @@ def k_seq(run, case):
             arr["t"][k] = arr["t"][k - 1] + 1e-3
     arr2 = {"p": arr["p"] + rng.normal(size=(n, 3)), "R": arr["R"], "t": arr["t"]}
     stamped = bool(rng.random() < .7)
-    smode = "se3" if rng.random() < .5 else "xyzq"
+    smode = case.get("smode") or ("se3" if rng.random() < .5 else "xyzq")
     # positions as the user may hand them over: float64, integer grid (Python ints) or float32
     dt = case.get("dtype") or ["float64", "float64", "float64", "int", "float32"][rng.integers(5)]
     if dt != "float64":
@@ -138,7 +141,8 @@ def k_seq(run, case):
     else:
         tr = gen.make_evo(arr, smode, stamped)
     tr2 = gen.make_evo(arr2, smode, stamped)
-    gen.age(rng, tr), gen.age(rng, tr2)
+    if not case.get("fresh"):
+        gen.age(rng, tr), gen.age(rng, tr2)
     mode_name = case.get("mode") or MODES[rng.integers(7)]
     mode = plot.PlotMode[mode_name]
     unit_name = case.get("unit") or ["mm", "cm", "m", "km"][rng.integers(4)]
@@ -404,6 +408,9 @@ def main(run):
                for d in ("int", "float32") for m in ("xy", "zx", "xyz")]
     corpus += [{"seq": ["speeds", "traj_xyz", "speeds", "traj_rpy", "traj_xyz"]},
                {"seq": ["traj_xyz", "traj_rpy", "speeds", "error_array"]}]
+    # fresh objects of 2..6 poses in both storage modes, the time-series plots first
+    corpus += [{"seq": sq, "n": nn, "smode": sm, "fresh": True}
+               for nn in (2, 3, 4, 5, 6) for sm in ("xyzq", "se3") for sq in (["traj_rpy", "traj_xyz"], ["traj_xyz", "speeds", "traj_rpy"])]
     for i in run.mine(len(corpus)):
         k_seq(run, run.case("seq", 10**6 + i, **corpus[i]))
     for i in run.mine({"quick": 160, "thorough": 3000}[run.tier]):
